@@ -56,8 +56,9 @@ Definition countb {A} (p : A -> bool) (l : list A) : Z :=
 Record DsConsts (T : Type) := mkDsConsts {
   k_cmp_tol : T;      (* c_dscore.c compare(): eps *)
   k_eps_min : T;      (* c_ensrank: smallest accepted eps *)
-  k_u_lo_c : T; k_u_lo_tol : T; k_u_low : T;
-  k_u_hi_c : T; k_u_hi_tol : T; k_u_high : T; k_u_tie : T;
+  k_u_tol_num : T;    (* tol = k_u_tol_num/ncold/ncold *)
+  k_u_lo_c : T; k_u_low : T;
+  k_u_hi_c : T; k_u_high : T; k_u_tie : T;
   k_eps : T;          (* metrics.EPS *)
   k_cst_max : T; k_num_add : T; k_den_one : T; k_pct_div : T;
   k_unif_mul : T; k_unif_sub : T; k_unif_div : T; k_cvm_num : T; k_cvm_den : T;
@@ -65,8 +66,8 @@ Record DsConsts (T : Type) := mkDsConsts {
   k_ad_prev0 : T; k_ad_lo : T; k_ad_hi : T
 }.
 Arguments k_cmp_tol {T}. Arguments k_eps_min {T}.
-Arguments k_u_lo_c {T}. Arguments k_u_lo_tol {T}. Arguments k_u_low {T}.
-Arguments k_u_hi_c {T}. Arguments k_u_hi_tol {T}. Arguments k_u_high {T}.
+Arguments k_u_tol_num {T}. Arguments k_u_lo_c {T}. Arguments k_u_low {T}.
+Arguments k_u_hi_c {T}. Arguments k_u_high {T}.
 Arguments k_u_tie {T}. Arguments k_eps {T}.
 Arguments k_cst_max {T}. Arguments k_num_add {T}. Arguments k_den_one {T}.
 Arguments k_pct_div {T}. Arguments k_unif_mul {T}. Arguments k_unif_sub {T}.
@@ -162,11 +163,18 @@ Definition pairF (eps : T) (e1 e2 : list T) : T :=
 Definition pairF_sentinel (eps : T) (e1 e2 : list T) : T :=
   F_of_sumrank (length e1) (sumrank_sentinel eps e1 e2).
 
-(* u = F<0.5-1e-8 ? 0. : F>0.5+1e-8 ? 1. : 0.5 *)
-Definition u_of_F (F : T) : T :=
-  if nltb N F (nsub N (k_u_lo_c K) (k_u_lo_tol K)) then k_u_low K
-  else if nltb N (nadd N (k_u_hi_c K) (k_u_hi_tol K)) F then k_u_high K
+(* F -> u with a given tolerance: u = F<0.5-tol ? 0. : F>0.5+tol ? 1. : 0.5 *)
+Definition u_of_F_tol (tol F : T) : T :=
+  if nltb N F (nsub N (k_u_lo_c K) tol) then k_u_low K
+  else if nltb N (nadd N (k_u_hi_c K) tol) F then k_u_high K
   else k_u_tie K.
+
+(* repaired code: tol = 0.25/ncold/ncold (F is a multiple of 1/(2 ncol^2)) *)
+Definition u_tol (ncol : nat) : T :=
+  let ncold := nofZ N (Z.of_nat ncol) in ndiv N (ndiv N (k_u_tol_num K) ncold) ncold.
+Definition u_of_F (ncol : nat) (F : T) : T := u_of_F_tol (u_tol ncol) F.
+(* pinned code: a fixed tolerance ([tol] = the literal 1e-8), whatever the size *)
+Definition u_of_F_pinned (tol : T) (F : T) : T := u_of_F_tol tol F.
 
 (* all pairs i1 < i2 in the order of the two loops, with F *)
 Fixpoint pairs_from (eps : T) (i1 : Z) (rows : list (list T)) : list (Z * Z * T) :=
@@ -178,9 +186,9 @@ Fixpoint pairs_from (eps : T) (i1 : Z) (rows : list (list T)) : list (Z * Z * T)
   end.
 
 (* ranks[i1] += u; ranks[i2] += 1.-u *)
-Definition rank_step (ranks : list T) (p : Z * Z * T) : list T :=
+Definition rank_step (ncol : nat) (ranks : list T) (p : Z * Z * T) : list T :=
   let '(i1, i2, F) := p in
-  let u := u_of_F F in
+  let u := u_of_F ncol F in
   upd_nth (Z.to_nat i2) (fun x => nadd N x (nsub N (n1 N) u))
           (upd_nth (Z.to_nat i1) (fun x => nadd N x u) ranks).
 
@@ -195,7 +203,7 @@ Definition ensrank (eps : T) (sim : list (list T)) : ensres :=
     if Nat.eqb ncol 0 || Nat.eqb (length sim) 0 then EnsErr DS_ESIZE
     else
       let fs := pairs_from eps 0 sim in
-      EnsOk fs (fold_left rank_step fs (map (fun _ => n1 N) sim)).
+      EnsOk fs (fold_left (rank_step ncol) fs (map (fun _ => n1 N) sim)).
 
 (* ================================================================== *)
 (* metrics.dscore                                                      *)
@@ -439,8 +447,8 @@ From Coq Require Import PrimFloat.
 
 Definition KF : DsConsts float := {|
   k_cmp_tol := DS_CMP_TOL_F; k_eps_min := DS_EPS_MIN_F;
-  k_u_lo_c := DS_U_LO_C_F; k_u_lo_tol := DS_U_LO_TOL_F; k_u_low := DS_U_LOW_F;
-  k_u_hi_c := DS_U_HI_C_F; k_u_hi_tol := DS_U_HI_TOL_F; k_u_high := DS_U_HIGH_F;
+  k_u_tol_num := DS_U_TOL_NUM_F; k_u_lo_c := DS_U_LO_C_F; k_u_low := DS_U_LOW_F;
+  k_u_hi_c := DS_U_HI_C_F; k_u_high := DS_U_HIGH_F;
   k_u_tie := DS_U_TIE_F; k_eps := EPS_metrics_F;
   k_cst_max := PIT_CST_MAX_F; k_num_add := PIT_NUM_ADD_F; k_den_one := PIT_DEN_ONE_F;
   k_pct_div := PIT_PCT_DIV_F;
@@ -451,8 +459,8 @@ Definition KF : DsConsts float := {|
 
 Definition KR : DsConsts R := {|
   k_cmp_tol := DS_CMP_TOL_R; k_eps_min := DS_EPS_MIN_R;
-  k_u_lo_c := DS_U_LO_C_R; k_u_lo_tol := DS_U_LO_TOL_R; k_u_low := DS_U_LOW_R;
-  k_u_hi_c := DS_U_HI_C_R; k_u_hi_tol := DS_U_HI_TOL_R; k_u_high := DS_U_HIGH_R;
+  k_u_tol_num := DS_U_TOL_NUM_R; k_u_lo_c := DS_U_LO_C_R; k_u_low := DS_U_LOW_R;
+  k_u_hi_c := DS_U_HI_C_R; k_u_high := DS_U_HIGH_R;
   k_u_tie := DS_U_TIE_R; k_eps := EPS_metrics_R;
   k_cst_max := PIT_CST_MAX_R; k_num_add := PIT_NUM_ADD_R; k_den_one := PIT_DEN_ONE_R;
   k_pct_div := PIT_PCT_DIV_R;
@@ -464,8 +472,8 @@ Definition KR : DsConsts R := {|
 (* real numbers with an explicit missing value (NaN) *)
 Definition KN : DsConsts (option R) := {|
   k_cmp_tol := Some DS_CMP_TOL_R; k_eps_min := Some DS_EPS_MIN_R;
-  k_u_lo_c := Some DS_U_LO_C_R; k_u_lo_tol := Some DS_U_LO_TOL_R; k_u_low := Some DS_U_LOW_R;
-  k_u_hi_c := Some DS_U_HI_C_R; k_u_hi_tol := Some DS_U_HI_TOL_R; k_u_high := Some DS_U_HIGH_R;
+  k_u_tol_num := Some DS_U_TOL_NUM_R; k_u_lo_c := Some DS_U_LO_C_R; k_u_low := Some DS_U_LOW_R;
+  k_u_hi_c := Some DS_U_HI_C_R; k_u_high := Some DS_U_HIGH_R;
   k_u_tie := Some DS_U_TIE_R; k_eps := Some EPS_metrics_R;
   k_cst_max := Some PIT_CST_MAX_R; k_num_add := Some PIT_NUM_ADD_R;
   k_den_one := Some PIT_DEN_ONE_R; k_pct_div := Some PIT_PCT_DIV_R;
